@@ -12,7 +12,7 @@ for f in $TMP/lane.*; do
     S=$TMP/rc.$id; rm -rf $S; cp -r /repo $S; rm -rf $S/.git
     (cd $S && patch -p1 -s < $d/patch.diff) || { echo "$id PATCH-FAILED"; rm -rf $S; continue; }
     case $prop in
-      C03|C06|C12) out=$(cd /verif && VERIF_REPO=$S ./bin/symgo check --property $prop --no-evidence 2>&1) ;; # have native-only harnesses
+      C03|C06|C12|C13|C15) out=$(cd /verif && VERIF_REPO=$S ./bin/symgo check --property $prop --no-evidence 2>&1) ;; # have native-only harnesses
       *) out=$(cd /verif && VERIF_NO_NATIVE=1 VERIF_REPO=$S ./bin/symgo check --property $prop --no-evidence --validate 0 2>&1) ;;
     esac
     rc=$?
